@@ -3,8 +3,10 @@
 Decided: the verification gate of unsign_from_foolscap, the pair handed to
 _process_announcement, the sequence-number replay rule (client and introducer
 server), the exception-escape analysis (E9) of the per-announcement handler
-in got_announcements (DESIGN.md section 5, C34), and that the decoding of the
-claimed key string into the verifying key is one-to-one (C34.7)."""
+in got_announcements (DESIGN.md section 5, C34), that the decoding of the
+claimed key string into the verifying key is one-to-one (C34.7), and that the
+rejection path of got_announcements applies only total operations to the
+rejected (untrusted) announcement (C34.8)."""
 from sa.h import *
 from sa.tables import ConstEval
 
@@ -40,6 +42,19 @@ EXPLANATION = (
     "cannot be evaluated: every accepting return has a conjunct reading the last character, and a validator whose "
     "other conjuncts see only len(s) is a violation); strip / case change / "
     "replace / split / re.sub / truncating or unchecked slices are violations. "
+    "(8) the rejection path is total: between the arrival of one announcement and the next iteration, every "
+    "statement of got_announcements that is not protected by the per-announcement try (the bodies of its handlers "
+    "up to the loop head, statements of the loop body in front of the try) and every in-package helper such a "
+    "statement hands the value to (followed through the call graph with the tainted parameters) applies only total "
+    "operations to values data-dependent on the loop variable: copying, tuple / list displays, is / == / truth tests, "
+    "repr / str(x) / type / isinstance, %-formatting of a str template with %s / %r and a tuple or dict display on the "
+    "right, f-strings without a format spec, and passing the value as an argument to a logging call (log / msg / err); "
+    "attribute access and method calls (.decode), indexing, unpacking, iteration (for / comprehension / *), arithmetic, "
+    "ordered comparison, % with the bare value or a bytes template or a numeric conversion, assertions on the value and "
+    "library calls that raise on the type or content of their argument (ensure_text, int, len, json, join ...) are "
+    "violations unless inside a nested try with an `except Exception` / bare handler; library calls in neither list, a "
+    "value passed on through * / ** and explicit raise statements of such helpers stay undecided (ANALYSIS-ERROR / not "
+    "examined).  The introducer server handles one announcement per remote call, so it has no sibling batch loop. "
     "Not demanded (liveness only, every return is still gated by (1)+(6)): the polarity of the empty / 'v0-' prefix "
     "guards of unsign_from_foolscap and of the isinstance guards of verify_signature, the duplicate shortcut and the "
     "subscribed-service filter of _process_announcement, saving the cache, the introducer server's fan-out. "
@@ -51,7 +66,9 @@ EXPLANATION = (
     "established the prefix (reported as ANALYSIS-ERROR, not as a violation).")
 TECHNIQUE = ("static analysis: CFG must-precede gates, CFG x fact-set monitor for the replay rule, transitive "
              "exception-escape analysis over the resolved call graph with guard pruning and the class hierarchy, "
-             "backward interprocedural data lineage (reaching definitions) with an injectivity classification of every step")
+             "backward interprocedural data lineage (reaching definitions) with an injectivity classification of every step, "
+             "forward interprocedural taint from the loop variable with a totality classification of every operation on the "
+             "rejection path")
 
 UNSIGN = "introducer.common:unsign_from_foolscap"
 CLIENT = "introducer.client:IntroducerClient"
@@ -1098,6 +1115,458 @@ def _attr_root(e):
     return e
 
 
+# =====================================================================
+# C34.8: the rejection path is total on the untrusted announcement
+# =====================================================================
+# A rejected announcement is, by definition, one whose fields have arbitrary types and contents (None for an
+# unsigned one, non-UTF-8 bytes after a flipped bit, a non-tuple).  Every statement that runs for it outside the
+# protection of the per-announcement try - the bodies of its handlers, whatever they call, and anything in the loop
+# body in front of the try - must therefore not be able to raise on the *value*: an exception there leaves
+# got_announcements and the rest of the batch is dropped.
+_TOTAL_CALLS = {"repr", "ascii", "type", "id", "isinstance", "bool", "callable"}      # + str(x) with one argument
+_LOG_SINKS = {"log", "msg", "err"}
+_PARTIAL_CALLS = {
+    "int", "float", "complex", "len", "ord", "chr", "bytes", "bytearray", "memoryview", "list", "tuple", "set", "frozenset",
+    "dict", "sorted", "reversed", "sum", "min", "max", "hash", "iter", "next", "enumerate", "zip", "map", "filter", "any",
+    "all", "abs", "round", "divmod", "hex", "oct", "bin", "unicode", "text_type", "ensure_text", "ensure_str", "ensure_binary",
+    "ensure_bytes", "loads", "dumps", "load", "dump", "join", "format", "b2a", "a2b", "hexlify", "unhexlify", "b32decode",
+    "b32encode", "b64decode", "b64encode", "pack", "unpack", "quote", "unquote", "escape", "native_str", "to_bytes",
+    "to_str", "getattr", "vars", "print"}
+_SAFE_CONV = {"s", "r", "a"}
+
+
+def _is_broad(handler_type):
+    if handler_type is None:
+        return True
+    return bool(set(C._handler_names(handler_type) or ()) & {"Exception", "BaseException"})
+
+
+class Totality:
+    """Classifies every operation applied to a value that is data-dependent on the untrusted announcement.  Allowed
+    (cannot raise whatever the value is): copying, tuple / list displays, `is` / `==` / truth tests, repr() / str(x) /
+    type() / isinstance(), %-formatting of a str template with %s / %r conversions and a tuple / dict display on the
+    right, f-strings without a format spec, and handing the value to a logging call (log / msg / err) as an argument.
+    Violations: attribute access and method calls (.decode, .get), indexing / slicing, unpacking, iteration
+    (for / comprehension / *x), arithmetic and ordered comparison, `%` with the bare value on the right or a bytes /
+    numeric conversion, assertions on the value, and library calls known to raise on the type or content of their
+    argument (ensure_text, int, len, json, join ...).  In-package callees are followed with the tainted parameters.
+    Library calls outside both lists are left undecided (ANALYSIS-ERROR)."""
+
+    MAX_DEPTH = 5
+
+    def __init__(self, idx):
+        self.idx = idx
+        self.cg = get_callgraph(idx)
+        self.folder = get_folder(idx)
+        self.violations = []       # (fn, ast node, message)
+        self.undecided = []        # (fn, ast node, message)
+        self.uses = []             # (fn, ast node) statements that handle the untrusted value (rule sites)
+        self.states = 0
+        self._done = set()
+        self._taint = {}
+
+    # ---- which locals carry the untrusted value (flow-insensitive fixpoint)
+    def taint(self, fn, seeds):
+        key = (fn.qual, frozenset(seeds))
+        if key in self._taint:
+            return self._taint[key]
+        t = set(seeds)
+        binds = []                 # (target expr, value expr, is_iteration)
+        for x in func_own_nodes(fn):
+            if isinstance(x, ast.Assign):
+                for tg in x.targets:
+                    binds.append((tg, x.value))
+            elif isinstance(x, ast.AugAssign):
+                binds.append((x.target, x.value))
+            elif isinstance(x, ast.AnnAssign) and x.value is not None:
+                binds.append((x.target, x.value))
+            elif isinstance(x, ast.NamedExpr):
+                binds.append((x.target, x.value))
+            elif isinstance(x, (ast.For, ast.AsyncFor)):
+                binds.append((x.target, x.iter))
+            elif isinstance(x, ast.comprehension):
+                binds.append((x.target, x.iter))
+            elif isinstance(x, (ast.With, ast.AsyncWith)):
+                for it in x.items:
+                    if it.optional_vars is not None:
+                        binds.append((it.optional_vars, it.context_expr))
+        changed = True
+        while changed:
+            changed = False
+            for (tg, v) in binds:
+                if not self.carries(fn, v, t):
+                    continue
+                for nm in names_in(tg) if not isinstance(tg, (ast.Subscript, ast.Attribute)) else ():
+                    if nm not in t:
+                        t.add(nm)
+                        changed = True
+            self.states += len(binds)
+        self._taint[key] = t
+        return t
+
+    def _is_sink(self, fn, call):
+        if call_tail(call) not in _LOG_SINKS:
+            return False
+        return all(g.name in _LOG_SINKS for g in self.cg.resolve(fn, call))
+
+    @staticmethod
+    def _is_total_call(call):
+        if not isinstance(call.func, ast.Name) or call.keywords:
+            return False
+        if call.func.id == "str":
+            return len(call.args) == 1 and not isinstance(call.args[0], ast.Starred)
+        return call.func.id in _TOTAL_CALLS and not any(isinstance(a, ast.Starred) for a in call.args)
+
+    def _template(self, fn, e):
+        if isinstance(e, ast.Constant):
+            return e.value if isinstance(e.value, (str, bytes)) else None
+        if isinstance(e, ast.BinOp) and isinstance(e.op, ast.Add):          # "a" "b" + "c"
+            a, b = self._template(fn, e.left), self._template(fn, e.right)
+            return a + b if a is not None and b is not None and type(a) is type(b) else None
+        if isinstance(e, (ast.Name, ast.Attribute)) and not (names_in(e) & (set(fn.params) | set(all_defs(fn)))):
+            try:
+                v = self.folder.fold(e, fn.module, fn.cls)
+            except Exception:
+                return None
+            return v if isinstance(v, (str, bytes)) else None
+        return None
+
+    def carries(self, fn, e, t):
+        """May the value of `e` still be the raw untrusted value (or a container of it)?"""
+        if e is None or isinstance(e, (ast.Constant, ast.JoinedStr, ast.Compare, ast.Lambda)):
+            return False
+        if isinstance(e, ast.Name):
+            return e.id in t
+        if isinstance(e, ast.UnaryOp) and isinstance(e.op, ast.Not):
+            return False
+        if isinstance(e, ast.BinOp) and isinstance(e.op, ast.Mod) and isinstance(self._template(fn, e.left), str):
+            return False                     # a rendered str
+        if isinstance(e, ast.Call):
+            if self._is_total_call(e) or self._is_sink(fn, e):
+                return False
+        return any(self.carries(fn, c, t) for c in ast.iter_child_nodes(e) if isinstance(c, ast.expr)
+                   or isinstance(c, (ast.comprehension, ast.keyword)))
+
+    # ---- reports
+    def _v(self, fn, node, msg, chain):
+        if chain:
+            msg += " (reached from the rejection path via %s)" % " -> ".join(chain)
+        if not any(f is fn and n is node for (f, n, _m) in self.violations):
+            self.violations.append((fn, node, msg))
+
+    def _u(self, fn, node, msg):
+        if not any(f is fn and n is node for (f, n, _m) in self.undecided):
+            self.undecided.append((fn, node, msg))
+
+    # ---- classification of one CFG node
+    def node(self, fn, n, t, chain, depth):
+        a = n.ast
+        if a is None or n.kind in ("entry", "exit", "raise", "except"):
+            return
+        self.states += 1
+        before = len(self.violations)
+        used = False
+        if n.kind == "iter":
+            used = self.carries(fn, a.iter, t)
+            if used:
+                self._v(fn, a.iter, "`for %s in %s` iterates over the untrusted value: TypeError when it is not iterable"
+                        % (src(fn, a.target), src(fn, a.iter)), chain)
+            self.expr(fn, n, a.iter, t, chain, depth)
+        elif n.kind == "with":
+            for it in a.items:
+                used |= self.carries(fn, it.context_expr, t)
+                self.expr(fn, n, it.context_expr, t, chain, depth)
+        elif n.kind == "test":
+            used = self.carries(fn, a, t) or bool(names_in(a) & t)
+            if n.assume and names_in(a) & t:
+                self._v(fn, a, "`%s` is asserted about the untrusted value: when it fails the AssertionError leaves the "
+                        "rejection path" % src(fn, a), chain)
+            self.expr(fn, n, a, t, chain, depth)
+        elif isinstance(a, (ast.FunctionDef, ast.AsyncFunctionDef, ast.ClassDef, ast.Import, ast.ImportFrom, ast.Global,
+                            ast.Nonlocal, ast.Pass, ast.Break, ast.Continue)):
+            return
+        elif isinstance(a, ast.Assign):
+            used = bool(names_in(a.value) & t)
+            self.expr(fn, n, a.value, t, chain, depth)
+            for tg in a.targets:
+                if isinstance(tg, (ast.Tuple, ast.List)) and self.carries(fn, a.value, t) and not (
+                        isinstance(a.value, (ast.Tuple, ast.List)) and len(a.value.elts) == len(tg.elts)
+                        and not any(isinstance(x, ast.Starred) for x in list(a.value.elts) + list(tg.elts))):
+                    self._v(fn, a, "`%s` unpacks the untrusted value: TypeError / ValueError when it is not a sequence of "
+                            "%d items" % (src(fn, a), len(tg.elts)), chain)
+                if isinstance(tg, (ast.Subscript, ast.Attribute)):
+                    used |= bool(names_in(tg) & t)
+                    self.expr(fn, n, tg, t, chain, depth)
+        elif isinstance(a, ast.AugAssign):
+            used = bool((names_in(a.value) | names_in(a.target)) & t)
+            self.expr(fn, n, aug_value(a), t, chain, depth)
+        elif isinstance(a, ast.AnnAssign):
+            used = a.value is not None and bool(names_in(a.value) & t)
+            self.expr(fn, n, a.value, t, chain, depth)
+        elif isinstance(a, (ast.Expr, ast.Return)):
+            used = a.value is not None and bool(names_in(a.value) & t)
+            self.expr(fn, n, a.value, t, chain, depth)
+        elif isinstance(a, ast.Raise):
+            self.expr(fn, n, a.exc, t, chain, depth)
+        elif isinstance(a, ast.Delete):
+            for tg in a.targets:
+                self.expr(fn, n, tg, t, chain, depth)
+        elif isinstance(a, ast.expr):
+            used = bool(names_in(a) & t)
+            self.expr(fn, n, a, t, chain, depth)
+        else:
+            if any(isinstance(x, ast.Name) and x.id in t for x in ast.walk(a)):
+                self._u(fn, a, "statement `%s` is not understood" % src(fn, a))
+        if used and len(self.violations) == before and not any(f is fn and x is a for (f, x) in self.uses):
+            self.uses.append((fn, a))
+
+    def expr(self, fn, n, e, t, chain, depth):
+        if e is None or isinstance(e, (ast.Constant, ast.Name)):
+            return
+        C_ = lambda x: self.carries(fn, x, t)
+        rec = lambda x: self.expr(fn, n, x, t, chain, depth)
+        if isinstance(e, (ast.Tuple, ast.List)):
+            for x in e.elts:
+                rec(x)
+            return
+        if isinstance(e, ast.Set):
+            for x in e.elts:
+                if C_(x):
+                    self._v(fn, e, "`%s` hashes the untrusted value: TypeError when it is unhashable" % src(fn, e), chain)
+                rec(x)
+            return
+        if isinstance(e, ast.Dict):
+            for k in e.keys:
+                if k is None:
+                    continue
+                if C_(k):
+                    self._v(fn, e, "`%s` uses the untrusted value as a key: TypeError when it is unhashable" % src(fn, e), chain)
+                rec(k)
+            for (k, v) in zip(e.keys, e.values):
+                if k is None and C_(v):
+                    self._v(fn, e, "`**%s` spreads the untrusted value" % src(fn, v), chain)
+                rec(v)
+            return
+        if isinstance(e, ast.Starred):
+            if C_(e.value):
+                self._v(fn, e, "`*%s` iterates over the untrusted value: TypeError when it is not iterable" % src(fn, e.value), chain)
+            rec(e.value)
+            return
+        if isinstance(e, ast.Attribute):
+            if C_(e.value):
+                self._v(fn, e, "`%s` reads an attribute of the untrusted value: AttributeError when it is None or of another "
+                        "type" % src(fn, e), chain)
+            rec(e.value)
+            return
+        if isinstance(e, ast.Subscript):
+            if C_(e.value):
+                self._v(fn, e, "`%s` indexes into the untrusted value: TypeError / IndexError / KeyError when it has another "
+                        "shape" % src(fn, e), chain)
+            elif C_(e.slice):
+                self._v(fn, e, "`%s` uses the untrusted value as an index: TypeError / KeyError" % src(fn, e), chain)
+            rec(e.value)
+            rec(e.slice)
+            return
+        if isinstance(e, ast.Slice):
+            for x in (e.lower, e.upper, e.step):
+                rec(x)
+            return
+        if isinstance(e, ast.BinOp):
+            tpl = self._template(fn, e.left) if isinstance(e.op, ast.Mod) else None
+            if tpl is not None:
+                self._percent(fn, n, e, tpl, t, chain, depth)
+                return
+            if C_(e.left) or C_(e.right):
+                self._v(fn, e, "`%s` computes with the untrusted value: TypeError when it is None or of another type"
+                        % src(fn, e), chain)
+            rec(e.left)
+            rec(e.right)
+            return
+        if isinstance(e, ast.UnaryOp):
+            if not isinstance(e.op, ast.Not) and C_(e.operand):
+                self._v(fn, e, "`%s` computes with the untrusted value" % src(fn, e), chain)
+            rec(e.operand)
+            return
+        if isinstance(e, ast.BoolOp):
+            for x in e.values:
+                rec(x)
+            return
+        if isinstance(e, ast.IfExp):
+            for x in (e.test, e.body, e.orelse):
+                rec(x)
+            return
+        if isinstance(e, ast.Compare):
+            operands = [e.left] + list(e.comparators)
+            for i, op in enumerate(e.ops):
+                l, r_ = operands[i], operands[i + 1]
+                if isinstance(op, (ast.Lt, ast.LtE, ast.Gt, ast.GtE)) and (C_(l) or C_(r_)):
+                    self._v(fn, e, "`%s` orders the untrusted value: TypeError when it is None or of another type"
+                            % src(fn, e), chain)
+                elif isinstance(op, (ast.In, ast.NotIn)):
+                    if C_(r_):
+                        self._v(fn, e, "`%s` searches in the untrusted value: TypeError when it is not a container"
+                                % src(fn, e), chain)
+                    elif C_(l) and not isinstance(r_, (ast.Tuple, ast.List)):
+                        self._u(fn, e, "`%s`: membership of the untrusted value in a container that is not a tuple / list "
+                                "display" % src(fn, e))
+            for x in operands:
+                rec(x)
+            return
+        if isinstance(e, ast.JoinedStr):
+            for x in e.values:
+                if isinstance(x, ast.FormattedValue):
+                    if x.format_spec is not None and C_(x.value):
+                        self._v(fn, x, "the untrusted value is formatted with a format spec in `%s`: TypeError / ValueError"
+                                % src(fn, e), chain)
+                    rec(x.value)
+            return
+        if isinstance(e, (ast.GeneratorExp, ast.ListComp, ast.SetComp, ast.DictComp)):
+            for g in e.generators:
+                if C_(g.iter):
+                    self._v(fn, g.iter, "`for %s in %s` iterates over the untrusted value: TypeError when it is not iterable"
+                            % (src(fn, g.target), src(fn, g.iter)), chain)
+                rec(g.iter)
+                for c in g.ifs:
+                    rec(c)
+            if isinstance(e, ast.DictComp):
+                if C_(e.key):
+                    self._v(fn, e, "`%s` uses the untrusted value as a key" % src(fn, e), chain)
+                rec(e.key)
+                rec(e.value)
+            else:
+                if isinstance(e, ast.SetComp) and C_(e.elt):
+                    self._v(fn, e, "`%s` hashes the untrusted value" % src(fn, e), chain)
+                rec(e.elt)
+            return
+        if isinstance(e, (ast.Await, ast.Yield, ast.YieldFrom, ast.NamedExpr)):
+            rec(e.value)
+            return
+        if isinstance(e, ast.Lambda):
+            if names_in(e.body) & t:
+                self._u(fn, e, "a lambda closes over the untrusted value")
+            return
+        if isinstance(e, ast.Call):
+            self._call(fn, n, e, t, chain, depth)
+            return
+        if any(isinstance(x, ast.Name) and x.id in t for x in ast.walk(e)):
+            self._u(fn, e, "`%s` is not an operation the totality analysis understands" % src(fn, e))
+
+    def _percent(self, fn, n, e, tpl, t, chain, depth):
+        rhs = e.right
+        if isinstance(rhs, ast.Name) and rhs.id in t:
+            try:
+                rv = FlowNorm(fn).resolve(n, rhs)
+            except Exception:
+                rv = rhs
+            if isinstance(rv, (ast.Tuple, ast.Dict)):
+                rhs = rv
+        convs = [c for (k, c) in percent_tokens(tpl) if k == "conv"]
+        if isinstance(tpl, bytes):
+            if self.carries(fn, rhs, t):
+                self._v(fn, e, "`%s` formats the untrusted value into a bytes template: TypeError unless it is bytes / a number"
+                        % src(fn, e), chain)
+            self.expr(fn, n, rhs, t, chain, depth)
+            return
+        if isinstance(rhs, ast.Tuple) and not any(isinstance(x, ast.Starred) for x in rhs.elts):
+            for i, x in enumerate(rhs.elts):
+                if self.carries(fn, x, t) and i < len(convs) and convs[i] not in _SAFE_CONV and len(convs) == len(rhs.elts):
+                    self._v(fn, e, "`%s` renders the untrusted value `%s` with %%%s: TypeError unless it is a number"
+                            % (src(fn, e), src(fn, x), convs[i]), chain)
+                self.expr(fn, n, x, t, chain, depth)
+            return
+        if isinstance(rhs, ast.Dict):
+            if any(c not in _SAFE_CONV for c in convs) and any(self.carries(fn, v, t) for v in rhs.values):
+                self._u(fn, e, "`%s`: a numeric conversion in a template rendering the untrusted value by name" % src(fn, e))
+            self.expr(fn, n, rhs, t, chain, depth)
+            return
+        if self.carries(fn, rhs, t):
+            self._v(fn, e, "`%s` applies %% to the bare untrusted value: a tuple is spread over the conversions (TypeError "
+                    "unless its length matches); wrap it as `(%s,)`" % (src(fn, e), src(fn, rhs)), chain)
+        self.expr(fn, n, rhs, t, chain, depth)
+
+    def _call(self, fn, n, e, t, chain, depth):
+        f = e.func
+        args = list(e.args) + [k.value for k in e.keywords]
+        tainted_args = [a for a in args if self.carries(fn, a.value if isinstance(a, ast.Starred) else a, t)]
+        if isinstance(f, ast.Attribute) and self.carries(fn, f.value, t):
+            self._v(fn, e, "`%s` calls a method of the untrusted value: AttributeError when it is None or of another type%s"
+                    % (src(fn, e), ", UnicodeDecodeError on bytes that are not text" if f.attr in ("decode", "encode") else ""),
+                    chain)
+            self.expr(fn, n, f.value, t, chain, depth)
+            for a in args:
+                self.expr(fn, n, a, t, chain, depth)
+            return
+        if not isinstance(f, ast.Name):
+            self.expr(fn, n, f, t, chain, depth)
+        for (a, kw) in [(a, None) for a in e.args] + [(k.value, k) for k in e.keywords]:
+            if kw is not None and kw.arg is None:
+                if self.carries(fn, a, t):
+                    self._v(fn, e, "`**%s` spreads the untrusted value" % src(fn, a), chain)
+            self.expr(fn, n, a, t, chain, depth)
+        if not tainted_args:
+            return
+        if self._is_total_call(e) or self._is_sink(fn, e):
+            return
+        targets = self.cg.resolve(fn, e)
+        tail = call_tail(e)
+        if targets:
+            for g in targets:
+                ps = first_positional_params(g) if g.cls is not None and isinstance(f, ast.Attribute) else list(g.params)
+                if g.cls is not None and not isinstance(f, ast.Attribute) and ps and ps[0] in ("self", "cls"):
+                    ps = ps[1:]
+                seeds = set()
+                lost = False
+                for i, a in enumerate(e.args):
+                    if isinstance(a, ast.Starred):
+                        lost |= self.carries(fn, a.value, t)
+                    elif self.carries(fn, a, t):
+                        if i < len(ps):
+                            seeds.add(ps[i])
+                        elif g.node.args.vararg is not None:
+                            lost = True
+                        else:
+                            lost = True
+                for k in e.keywords:
+                    if self.carries(fn, k.value, t):
+                        if k.arg is not None and k.arg in g.params:
+                            seeds.add(k.arg)
+                        else:
+                            lost = True
+                if lost:
+                    self._u(fn, e, "the untrusted value reaches %s through * / ** arguments" % short(g))
+                if seeds:
+                    self.function(g, seeds, chain + ["%s at %s" % (short(fn), fn.loc(e))], depth + 1)
+            return
+        if tail in _PARTIAL_CALLS or (isinstance(f, ast.Name) and f.id == "str"):
+            self._v(fn, e, "`%s` hands the untrusted value to %s(), which raises on the type or content of its argument "
+                    "(None, non-bytes, bytes that are not UTF-8 ...)" % (src(fn, e), call_name(e) or tail), chain)
+        else:
+            self._u(fn, e, "`%s(..)` is given the untrusted value and is not a call the totality analysis knows" % (
+                call_name(e) or tail))
+
+    # ---- a whole callee
+    def function(self, g, seeds, chain, depth):
+        key = (g.qual, frozenset(seeds))
+        if key in self._done:
+            return
+        self._done.add(key)
+        if depth > self.MAX_DEPTH:
+            self._u(g, g.node, "call depth exceeded at %s" % short(g))
+            return
+        t = self.taint(g, seeds)
+        cfg = g.cfg()
+        reach = cfg.reachable_nodes()
+        for n in cfg.nodes:
+            if n.id not in reach or self.protected(cfg, n):
+                continue
+            self.node(g, n, t, chain, depth)
+
+    @staticmethod
+    def protected(cfg, n):
+        return any(l == "exc" and cfg.nodes[d].kind == "except" and _is_broad(cfg.nodes[d].ast.type)
+                   for (d, l) in cfg.succ[n.id])
+
+
 def run(ctx: Context):
     idx = ctx.idx
     cg = get_callgraph(idx)
@@ -1352,6 +1821,9 @@ def run(ctx: Context):
                 def tr(a, lab, nxt, st, _head=head):
                     if a is _head:
                         return None
+                    if nxt is not None and getattr(nxt, "kind", None) == "raise" and lab == "exc" \
+                            and Totality.protected(gcfg, a):
+                        return None      # inside a nested try with a broad handler: only BaseException passes
                     return 0
                 visited, parent = explore(gcfg, 0, tr, start=h)
                 r.count(len(visited))
@@ -1367,6 +1839,63 @@ def run(ctx: Context):
                                     witness(gcfg, parent, (nid, 0)))
             if not handlers:
                 r.site(ga, c, "no handler")      # C34.3 reports every class as escaping
+
+    # -- 8. the rejection path cannot raise on the rejected value ------------
+    with ctx.rule("C34.8", "E9", "got_announcements: between receiving an announcement and moving on to the next one, "
+                  "everything that runs outside the protection of the per-announcement try (its handlers, the helpers they "
+                  "call, statements in front of the try) applies only total operations to the untrusted announcement",
+                  expected=2) as r:
+        if not roots:
+            raise AnchorVanished("got_announcements no longer calls unsign_from_foolscap")
+        tot = Totality(idx)
+        for (n, c) in roots:
+            loops = _enclosing_loop_heads(ga, n)
+            if not loops:
+                continue        # reported by C34.3
+            head = loops[-1]
+            seeds = names_in(head.ast.target)
+            t = tot.taint(ga, seeds)
+            handlers = [gcfg.nodes[d] for (d, l) in gcfg.succ[n.id] if l == "exc" and gcfg.nodes[d].kind == "except"]
+            trys = [x for x in ast.walk(head.ast) if isinstance(x, ast.Try)
+                    and any(y is n.ast for b in x.body for y in ast.walk(b))]
+            in_try = {id(y) for x in trys for y in ast.walk(x)}
+            region = {}
+
+            def tr(a, lab, nxt, st, _head=head):
+                return None if a is _head else 0
+            # (a) from every handler to the next iteration
+            for h in handlers:
+                r.site(ga, h.ast, "rejection handler")
+                visited, _parent = explore(gcfg, 0, tr, start=h)
+                r.count(len(visited))
+                for (nid, _s) in visited:
+                    region[nid] = gcfg.nodes[nid]
+            # (b) in the loop body, in front of the per-announcement try
+            in_loop = {id(y) for b in head.ast.body for y in ast.walk(b)}
+            for x in gcfg.nodes:
+                if x.ast is None or id(x.ast) not in in_loop or id(x.ast) in in_try or x.id in region:
+                    continue
+                visited, _parent = explore(gcfg, 0, tr, start=x)
+                if any(nid == n.id for (nid, _s) in visited):
+                    region[x.id] = x
+            for nid in sorted(region):
+                x = region[nid]
+                if x is head or Totality.protected(gcfg, x):
+                    continue
+                if x.kind == "except" or (x.ast is not None and id(x.ast) in in_try and not any(
+                        any(y is x.ast for b in h.ast.body for y in ast.walk(b)) for h in handlers)
+                        and not any(y is x.ast for tt in trys for b in tt.finalbody for y in ast.walk(b))):
+                    continue        # try body / else clause: the accepting path (C34.3 / undecided)
+                tot.node(ga, x, t, [], 0)
+        r.count(tot.states)
+        for (f, nd) in tot.uses:
+            r.site(f, nd, "total use of the untrusted value")
+        for (f, nd, msg) in tot.violations:
+            r.violation(f, f.loc(nd), "a rejected announcement has fields of arbitrary type and content, and an exception on "
+                        "the rejection path leaves got_announcements, so the rest of the batch is dropped; " + msg)
+        if tot.undecided and not tot.violations:
+            raise AnalysisError("C34.8 cannot decide that the rejection path is total: " + "; ".join(
+                "%s at %s: %s" % (short(f), f.loc(nd), msg) for (f, nd, msg) in tot.undecided))
 
     # -- 4. replay rule (introducer server) --------------------------------
     with ctx.rule("C34.4", "R3", "IntroducerService._publish: _announcements[(service, key)] is replaced only by an "
